@@ -993,34 +993,40 @@ func (e *Exec) loopControl(fn *ssa.Function, blk *ssa.BasicBlock) bool {
 	if v, ok := e.lightCache[key]; ok {
 		return v
 	}
-	reaches := func(from *ssa.BasicBlock) bool {
-		seen := map[int]bool{}
-		stack := []*ssa.BasicBlock{from}
-		for len(stack) > 0 {
-			b := stack[len(stack)-1]
-			stack = stack[:len(stack)-1]
-			if b == blk {
-				return true
-			}
-			if seen[b.Index] {
+	// natural loops: for every back edge t->h (h dominates t) the loop is h plus everything that reaches t
+	// without passing through h; blk controls a loop when it lies in one and a successor leaves the innermost
+	// such loop (a branch both of whose successors stay inside is body-internal and bounded by the loop's own
+	// controlling branch; a loop without exit, e.g. for { select }, is bounded in selectOp)
+	var inner map[int]bool
+	for _, h := range fn.Blocks {
+		loop := map[int]bool{}
+		for _, t := range h.Preds {
+			if !h.Dominates(t) {
 				continue
 			}
-			seen[b.Index] = true
-			stack = append(stack, b.Succs...)
+			loop[h.Index] = true
+			stack := []*ssa.BasicBlock{t}
+			for len(stack) > 0 {
+				x := stack[len(stack)-1]
+				stack = stack[:len(stack)-1]
+				if loop[x.Index] {
+					continue
+				}
+				loop[x.Index] = true
+				stack = append(stack, x.Preds...)
+			}
 		}
-		return false
-	}
-	n := 0
-	for _, s := range blk.Succs {
-		if reaches(s) {
-			n++
+		if loop[blk.Index] && (inner == nil || len(loop) < len(inner)) {
+			inner = loop
 		}
 	}
-	res := n == 1
-	if n == 2 {
-		// both successors return here: either a body-internal branch of an enclosing loop (bounded by that loop's
-		// controlling branch) or a loop without exit (e.g. for { select }) which is bounded elsewhere
-		res = false
+	res := false
+	if inner != nil {
+		for _, s := range blk.Succs {
+			if !inner[s.Index] {
+				res = true
+			}
+		}
 	}
 	e.lightCache[key] = res
 	return res
